@@ -80,7 +80,7 @@ var baseAssumptions = []string{
 const ruleCommon = "each run = one seeded simulation: (VERIF_SEED, run index) seeds a PRNG that answers every choice (workload, configuration, scheduling decision at every sync point and armed statement, pool hand-out, fault). A run is non-trivial when the scheduler moved the baton away from a task that could have continued at least once, or at least one fault fired; distinct = distinct case hashes (hash over every scheduling decision and every answer of the choice stream, i.e. workload, configuration and faults) among non-trivial runs."
 
 var props = map[string]propCfg{
-	"C10": {World: "diode", Level: "exploration", QuickWall: 20, ThoroughSec: 600, Rule: ruleCommon},
+	"C10": {World: "diode", RaceWorld: "dioderace", Level: "exploration", QuickWall: 20, ThoroughSec: 600, Rule: ruleCommon},
 	"C11": {World: "diode", Level: "exploration", QuickWall: 20, ThoroughSec: 600, Rule: ruleCommon},
 	"C12": {World: "diode", Level: "exploration", QuickWall: 20, ThoroughSec: 600, Rule: ruleCommon},
 	"C05": {World: "c05", Level: "exploration", QuickWall: 25, ThoroughSec: 600, Rule: ruleCommon},
